@@ -33,6 +33,7 @@ CHECKS = {'C17': {'level': 'model_checking',
                     {'name': 'free',
                      'harness': 'c17_free',
                      'share': 0.2,
+                     'crash_is_violation': True,
                      'what': 'free-running pool: size x elements x chunk x submitters x thrower lattice, shutdown with '
                              'queued tasks'},
                     {'name': 'free-tsan',
